@@ -61,6 +61,7 @@ func TestC13History(t *testing.T) {
 		prof := swapProfile()
 		prof["createPool"] = 25
 		h := newHistory(t, wo, prof, sim.BlockOpts{MaxTxs: 10})
+		defer queryLoad(t, h, 0)()
 		var before map[[2]uint64]poolSnap
 		trades, orderTrades := 0, 0
 		h.R.H.BeforeTx = func(m *sim.TxMeta) { before = snapPools(h, nil) }
